@@ -1,5 +1,6 @@
 import FluteModel.Drv.Util
 import FluteModel.Drv.Md5
+import FluteModel.Drv.Rs
 import FluteModel.ObjSess
 /-
   Line-protocol driver of engine `orecv` (see harness/engines/orecv/src/main.rs for the op grammar).
@@ -54,12 +55,7 @@ def lookupCt (tab : List (String × Option Bytes)) (key : String) : Option Bytes
 
 def mkCodec (tab : List (String × Option Bytes)) : Codec where
   rsNewOk k p := decide (1 ≤ k) && decide (1 ≤ p) && decide (k + p ≤ 256)
-  rsReconstruct k p shards :=
-    match lookupCt tab s!"rs/{k}/{p}/{symKey (presentShards shards)}" with
-    | none => none
-    | some block =>
-      let src := (chunks (block.length / k) block k).map some
-      some (src ++ shards.drop k)
+  rsReconstruct k p shards := Rs.reconstruct k p shards
   rqData _ k e _ pushes := lookupCt tab s!"rq/{k}/{e}/{symKey (canonPushes pushes)}"
   rFull k bs pushes := (lookupCt tab s!"r/{k}/{bs}/{symKey (canonPushes pushes)}").isSome
   rDecode k bs pushes := lookupCt tab s!"r/{k}/{bs}/{symKey (canonPushes pushes)}"
@@ -159,8 +155,11 @@ def showCall (all : List WCall) (c : WCall) : Option String :=
   | .error => some (if cencNull all then s!"E{tot}" else "E")
   | .interrupted => some (if cencNull all then s!"I{tot}" else "I")
 
-def showChunk (c : Chunk) : String :=
-  s!"{c.toi}.{c.idx}:" ++ ",".intercalate (c.calls.filterMap (showCall c.all))
+def showChunk (c : Chunk) : Option String :=
+  -- writers whose calls of this op are all suppressed (writes with cenc ≠ null) are not shown
+  match c.calls.filterMap (showCall c.all) with
+  | [] => none
+  | l => some (s!"{c.toi}.{c.idx}:" ++ ",".intercalate l)
 
 def chunkLt (a b : Chunk) : Bool := a.toi < b.toi || (a.toi == b.toi && a.idx < b.idx)
 
@@ -171,7 +170,7 @@ def insertChunk (x : Chunk) : List Chunk → List Chunk
 def showSess (S : Sess) : String :=
   -- S.log holds the chunks most recent first; stable sort by (toi, idx) keeping call order
   let sorted := S.log.foldl (fun acc c => insertChunk c acc) []
-  let body := ";".intercalate (sorted.map showChunk)
+  let body := ";".intercalate (sorted.filterMap showChunk)
   s!"{body} | objs={S.objects.length} errs={S.errors.length}"
 
 /-! ### parsing -/
@@ -289,15 +288,25 @@ def step (d : DState) (args : List String) : DState × String :=
     match parsePkt rest with
     | none => (d, "bad-op")
     | some p => finish d (d.S.pushObj d.params p)
-  | "fdtpkt" :: _ =>
+  | "nop" :: _ =>
     if d.dead then (d, "dead") else finish d (.ok d.S)
   | "fdt" :: rest =>
     if d.dead then (d, "dead") else
     match kvNat rest "id", (kv rest "files").bind parseFiles with
     | some id, some files => finish d (d.S.fdtComplete d.params { id := id, files := files })
     | _, _ => (d, "bad-op")
+  | ["expect", _, _, _] => (d, "ok")
   | ["drop"] =>
-    if d.dead then (d, "dead") else finish d (.ok d.S.dropAll)
+    if d.dead then (d, "dead") else
+    -- the Receiver is dropped; the next packet goes to a fresh Receiver (the monitor's call counters persist)
+    let S := { d.S.dropAll with errors := [] }
+    let (d, out) := finish d (.ok S)
+    ({ d with S := { cfg := S.cfg, calls := S.calls } }, out)
+  | ["probe"] =>
+    if d.dead then (d, "dead") else
+    let objs := d.S.objects.map (·.st)
+    let sum (f : St → Nat) : Nat := objs.foldl (fun a st => a + f st) 0
+    (d, s!"cache={sum fun st => st.cache.foldl (fun a p => a + p.dataLen) 0} csize={sum (·.cacheSize)} nballoc={sum (·.nbAlloc)} alloc={sum (·.totalAlloc)}")
   | _ => (d, "bad-op")
 
 end Flute.Drv.Orecv
